@@ -13,7 +13,9 @@ from ..values import Num, Const, Tup, Term, Val, Kw, Gam, P, Fn, veq, walk_vals,
 from ..model import AnalysisError
 from ..symeval import Evaluator
 from ..datasets_model import DS, BASE, REMOTE_LOADER, const_str
-from .common import show, REPO_RESULT_KIND, ModSpec, targ
+from .common import show, REPO_RESULT_KIND, ModSpec, targ, inline_except
+from ..truth import equivalent
+from ..sym import C
 from . import c18
 
 FETCH = BASE + '._fetch_remote'
@@ -47,7 +49,7 @@ def evaluate(ctx, flags: Dict[str, Val], available: Optional[bool], gzip=Const(F
         if isinstance(q, P) and q.op == 'truthy' and isinstance(q.args[0], Term) and q.args[0].head == 'lib:os.path.exists':
             return available != neg
         return None
-    ev = Evaluator(ctx.prog, inline=lambda f: f.qualname == FETCH, opaque_kind=REPO_RESULT_KIND, decide=decide)
+    ev = Evaluator(ctx.prog, inline=inline_except(SHA, BASE + '.get_data_home'), opaque_kind=REPO_RESULT_KIND, decide=decide)
     res, st = ev.run_function(fi, args=args)
     return fi, ev, res, args
 
@@ -231,84 +233,141 @@ def check_checksum_on(ctx):
 
 
 def check_retry(ctx):
-    ctx.rule('C19.4', 'retry loop: the download sits in a recognised retry idiom whose handler catches exactly URLError and TimeoutError, re-raises (bare raise) '
-                      'when the counter is exhausted, otherwise decrements it by one and continues; success leaves the loop; the handler neither returns, '
-                      'breaks nor swallows; hence up to n_retries failures are absorbed and the next one propagates')
-    fi = ctx.prog.func(FETCH)
-    loops = [n for n in ast.walk(fi.node) if isinstance(n, (ast.While, ast.For))]
-    found = None
-    for lp in loops:
-        tries = [s for s in lp.body if isinstance(s, ast.Try)]
-        if len(tries) != 1:
-            continue
-        t = tries[0]
-        calls = [n for s in t.body for n in ast.walk(s) if isinstance(n, ast.Call)]
-        if any(ctx.prog.resolve_expr(fi.module, c.func) == ('lib', 'urllib.request.urlretrieve') for c in calls):
-            found = (lp, t)
-    if found is None:
-        raise AnalysisError('C19.4: retry idiom around urlretrieve not recognised in _fetch_remote')
-    lp, t = found
-    inst = f"retry loop at {fi.loc(lp)}"
-    if isinstance(lp, ast.While):
-        ctx.check(isinstance(lp.test, ast.Constant) and lp.test.value is True, 'C19.4', inst + ': `while True` (idiom 1)', ast.unparse(lp.test), fi.loc(lp), fi.qualname, 'loop-form')
-        ok_break = any(isinstance(s, ast.Break) for s in t.body) or any(isinstance(s, ast.Break) for s in t.orelse)
-        ctx.check(ok_break, 'C19.4', inst + ': success leaves the loop (break after the download)', '', fi.loc(t), fi.qualname, 'break')
-        brk = [i for i, s in enumerate(t.body) if isinstance(s, ast.Break)]
-        dl = [i for i, s in enumerate(t.body) if any(isinstance(n, ast.Call) and ctx.prog.resolve_expr(fi.module, n.func) == ('lib', 'urllib.request.urlretrieve') for n in ast.walk(s))]
-        if brk and dl:
-            ctx.check(min(brk) > max(dl), 'C19.4', inst + ': the break follows the download', '', fi.loc(t), fi.qualname, 'break-after')
-    else:
-        ctx.check(isinstance(lp.iter, ast.Call) and getattr(lp.iter.func, 'id', '') == 'range', 'C19.4', inst + ': `for ... in range(n+1)` (idiom 2)', ast.unparse(lp.iter),
-                  fi.loc(lp), fi.qualname, 'loop-form')
-    ctx.check(len(t.handlers) == 1, 'C19.4', inst + ': one handler', f"{len(t.handlers)} handlers", fi.loc(t), fi.qualname, 'one-handler')
-    h = t.handlers[0]
-    types = []
-    if isinstance(h.type, ast.Tuple):
-        types = [ctx.prog.resolve_expr(fi.module, e) or ('name', ast.unparse(e)) for e in h.type.elts]
-    elif h.type is not None:
-        types = [ctx.prog.resolve_expr(fi.module, h.type) or ('name', ast.unparse(h.type))]
-    names = sorted((r[1] if r[0] != 'name' else r[1]) if r else '?' for r in types)
-    names = [n if isinstance(n, str) else str(n) for n in names]
-    ctx.check(names == ['TimeoutError', 'urllib.error.URLError'], 'C19.4', inst + ': the handler catches exactly URLError and TimeoutError', f"catches {names or 'everything'}",
-              fi.loc(h), fi.qualname, 'types')
-    # handler body: `if counter == 0: raise` ... `counter -= 1`
-    body = h.body
-    reraise = None
-    for s in body:
-        if isinstance(s, ast.If) and any(isinstance(n, ast.Raise) and n.exc is None for n in s.body):
-            reraise = s
-    ok_test = False
+    ctx.rule('C19.4', 'retry loop, read off the evaluated download path (helpers inlined): the download sits in a try inside an unbounded loop; the handler catches '
+                      'exactly URLError and TimeoutError, re-raises the caught exception (bare raise) exactly when the counter - a loop-carried copy of n_retries - '
+                      'is exhausted, otherwise leaves the counter one lower and falls through to the next iteration; success leaves the loop; the handler neither '
+                      'returns, breaks nor raises something else; hence up to n_retries failures are absorbed and the next one propagates')
+    fi, ev, res, args = evaluate(ctx, {'download_if_missing': Const(True), 'download_even_if_available': Const(True), 'validate_checksum': Const(True)}, available=False)
+    dls = [e for e in ev.events if e.kind == 'lib' and e.data['name'] == 'urllib.request.urlretrieve']
+    if len(dls) != 1:
+        raise AnalysisError(f"C19.4: expected one urlretrieve call in the download path, found {len(dls)}")
+    dl = dls[0]
+    owner = dl.func if dl.func is not None else fi
+    tries = [e for e in ev.events if e.kind == 'try' and e.data['body_events'][0] <= ev.events.index(dl) < e.data['body_events'][1]]
+    wloops = [l for l in dl.loops if l.kind == 'while']
+    if tries and not wloops and dl.loops:
+        return check_retry_bounded(ctx, ev, fi, dl, tries[-1], args, owner)
+    if not tries or not wloops:
+        raise AnalysisError('C19.4: retry idiom around urlretrieve not recognised (the download is not inside a try inside a loop)')
+    tev = tries[-1]
+    lp = wloops[-1]
+    log = [e for e in ev.loop_log if e['lid'] == lp.lid][0]
+    inst = f"retry loop at {owner.loc(lp.node)}"
+    ctx.check(isinstance(log['cond'], Const) and log['cond'].v is True, 'C19.4', inst + ': the loop itself never gives up (`while True`); only success or the re-raise leave it',
+              str(log['cond']), owner.loc(lp.node), owner.qualname, 'loop-form')
+    hs = tev.data['handlers']
+    ctx.check(len(hs) == 1, 'C19.4', inst + ': one handler', f"{len(hs)} handlers", owner.loc(tev.node), owner.qualname, 'one-handler')
+    names = sorted(n if isinstance(n, str) else str(n) for h in hs for n in (h if isinstance(h, list) else [h]))
+    ctx.check(names == ['TimeoutError', 'URLError'] or names == ['TimeoutError', 'urllib.error.URLError'], 'C19.4', inst + ': the handler catches exactly URLError and TimeoutError',
+              f"catches {names or 'everything'}", owner.loc(tev.node), owner.qualname, 'types')
+
+    def in_handler(e) -> bool:
+        return any(isinstance(g, P) and g.op == 'except' and veq(g.args[1], Const(tev.seq)) for g in e.guard)
+
+    def handler_guard(e):
+        """conditions inside the handler under which the event happens"""
+        out, seen = [], False
+        for g in e.guard:
+            if isinstance(g, P) and g.op == 'except' and veq(g.args[1], Const(tev.seq)):
+                seen = True
+                continue
+            if seen:
+                out.append(g)
+        return out
+    inside = [e for e in ev.events if lp in e.loops]
+    # success leaves the loop
+    leave = [e for e in inside if e.kind in ('break', 'return') and not in_handler(e) and e.seq > dl.seq and e.loops and e.loops[-1] is lp]
+    ctx.check(bool(leave) and all(not e.guard[len(dl.guard):] for e in leave[:1]), 'C19.4', inst + ': success leaves the loop (break / return right after the download)',
+              f"{[(e.kind, e.loc()) for e in leave]}", owner.loc(tev.node), owner.qualname, 'break')
+    # the handler: re-raise exactly when the counter is exhausted
+    raises = [e for e in inside if e.kind == 'raise' and in_handler(e)]
+    rer = [e for e in raises if e.data.get('reraise')]
+    other = [e for e in raises if not e.data.get('reraise')]
+    ctx.check(not other, 'C19.4', inst + ': the original exception propagates (no replacement exception)', f"{[(e.data.get('exc'), e.loc()) for e in other]}",
+              owner.loc(tev.node), owner.qualname, 'same-exc')
+    swallow = [e for e in inside if e.kind in ('break', 'return') and in_handler(e)]
+    ctx.check(not swallow, 'C19.4', inst + ': the handler neither returns nor breaks (no swallowed failure)', f"{[(e.kind, e.loc()) for e in swallow]}",
+              owner.loc(tev.node), owner.qualname, 'no-swallow')
     counter = None
-    if reraise is not None and isinstance(reraise.test, ast.Compare) and len(reraise.test.ops) == 1:
-        l, r = reraise.test.left, reraise.test.comparators[0]
-        op = reraise.test.ops[0]
-        if isinstance(l, ast.Name) and isinstance(r, ast.Constant) and r.value == 0 and isinstance(op, (ast.Eq, ast.LtE)):
-            ok_test, counter = True, l.id
-        if isinstance(r, ast.Name) and isinstance(l, ast.Constant) and l.value == 0 and isinstance(op, (ast.Eq, ast.GtE)):
-            ok_test, counter = True, r.id
-    ctx.check(reraise is not None and ok_test, 'C19.4', inst + ': the handler re-raises the caught exception (bare raise) exactly when the counter is exhausted (== 0)',
-              ast.unparse(reraise.test) if reraise is not None else 'no `if ...: raise` in the handler', fi.loc(h), fi.qualname, 'reraise')
+    ok_test = False
+    detail = 'no bare `raise` in the handler'
+    nparam = args['n_retries']
+    if len(rer) == 1:
+        g = handler_guard(rer[0])
+        detail = f"re-raises when {[str(x) for x in g]}"
+        # candidates: loop-carried names whose value before the loop is the n_retries parameter
+        for nm in sorted(log['names']):
+            pre = log['pre'].env.get(nm)
+            if pre is None or not veq(ev.as_num(pre), nparam):
+                continue
+            cin = ev.as_num(log['entry'][nm])
+            for want in (P('==', cin, Num(C(0))), p_not(P('<', Num(C(0)), cin))):
+                verdict, _ = equivalent(g[0] if len(g) == 1 else P('and', *g) if g else Const(True), want)
+                if verdict:
+                    counter, ok_test = nm, True
+    ctx.check(len(rer) == 1 and ok_test, 'C19.4', inst + ': the handler re-raises the caught exception (bare raise) exactly when the counter is exhausted (== 0)',
+              detail, owner.loc(tev.node), owner.qualname, 'reraise')
     if counter is not None:
-        ctx.check(counter in fi.params(), 'C19.4', inst + f": the counter `{counter}` is the n_retries parameter", '', fi.loc(h), fi.qualname, 'counter-param')
-        dec = [s for s in body if isinstance(s, ast.AugAssign) and isinstance(s.target, ast.Name) and s.target.id == counter and isinstance(s.op, ast.Sub)
-               and isinstance(s.value, ast.Constant) and s.value.value == 1]
-        dec += [s for s in body if isinstance(s, ast.Assign) and len(s.targets) == 1 and isinstance(s.targets[0], ast.Name) and s.targets[0].id == counter
-                and isinstance(s.value, ast.BinOp) and isinstance(s.value.op, ast.Sub) and isinstance(s.value.left, ast.Name) and s.value.left.id == counter
-                and isinstance(s.value.right, ast.Constant) and s.value.right.value == 1]
-        ctx.check(len(dec) == 1, 'C19.4', inst + ': each absorbed failure decrements the counter by exactly one', f"{len(dec)} decrements", fi.loc(h), fi.qualname, 'decrement')
-        if dec and reraise is not None:
-            ctx.check(body.index(reraise) < body.index(dec[0]), 'C19.4', inst + ': the exhaustion test precedes the decrement', '', fi.loc(h), fi.qualname, 'test-first')
-        others = [n for s in lp.body for n in ast.walk(s) if isinstance(n, (ast.AugAssign, ast.Assign)) and
-                  any(isinstance(x, ast.Name) and x.id == counter and isinstance(x.ctx, ast.Store) for x in ast.walk(n))]
-        ctx.check(len(others) == len(dec), 'C19.4', inst + ': the counter is modified nowhere else in the loop', f"{len(others)} assignments", fi.loc(lp), fi.qualname, 'counter-only')
-    swallow = [n for s in body for n in ast.walk(s) if isinstance(n, (ast.Return, ast.Break))]
-    ctx.check(not swallow, 'C19.4', inst + ': the handler neither returns nor breaks (no swallowed failure)', f"{[type(n).__name__ for n in swallow]}", fi.loc(h), fi.qualname,
-              'no-swallow')
-    raises_other = [n for s in body for n in ast.walk(s) if isinstance(n, ast.Raise) and n.exc is not None]
-    ctx.check(not raises_other, 'C19.4', inst + ': the original exception propagates (no replacement exception)', '', fi.loc(h), fi.qualname, 'same-exc')
-    ctx.check(not t.finalbody or not any(isinstance(n, (ast.Return, ast.Break, ast.Continue)) for s in t.finalbody for n in ast.walk(s)), 'C19.4',
-              inst + ': no finally clause overrides the propagation', '', fi.loc(t), fi.qualname, 'finally')
-    ctx.sample({'rule': 'C19.4', 'handler': names, 'counter': counter})
+        ctx.ok('C19.4', inst + f": the counter `{counter}` starts as the n_retries parameter", '', owner.loc(tev.node), owner.qualname, 'counter-param')
+        ends = tev.data.get('handler_ends', [])
+        cin = ev.as_num(log['entry'][counter])
+        okd = len(ends) == 1 and ends[0]['falls_through'] and ev.as_num(ends[0]['env'].get(counter)) is not None and ev.as_num(ends[0]['env'][counter]).r == cin.r - C(1)
+        ctx.check(okd, 'C19.4', inst + ': each absorbed failure leaves the counter exactly one lower and goes on to the next attempt',
+                  f"{[(h['falls_through'], show(h['env'].get(counter), 60)) for h in ends]}", owner.loc(tev.node), owner.qualname, 'decrement')
+    t = tev.node
+    ctx.check(not t.finalbody or not any(isinstance(n, (ast.Return, ast.Break, ast.Continue)) for s_ in t.finalbody for n in ast.walk(s_)), 'C19.4',
+              inst + ': no finally clause overrides the propagation', '', owner.loc(t), owner.qualname, 'finally')
+    ctx.sample({'rule': 'C19.4', 'handler': names, 'counter': counter, 'function': owner.qualname})
+
+
+def check_retry_bounded(ctx, ev, fi, dl, tev, args, owner):
+    """idiom 2: `for attempt in range(...)`: the loop bounds the number of attempts, which has to be n_retries + 1, and the last failure has to propagate"""
+    lp = dl.loops[-1]
+    inst = f"retry loop at {owner.loc(lp.node)}"
+    n = args['n_retries'].r
+    count = None
+    itn = lp.node.iter if isinstance(lp.node, ast.For) else None
+    if lp.kind == 'range' and lp.lo is not None and lp.hi is not None:
+        count = lp.hi - lp.lo
+    elif isinstance(itn, ast.Call) and getattr(itn.func, 'id', '') == 'range' and len(itn.args) == 3:
+        # range(start, stop, -1): start - stop attempts
+        sub = Evaluator(ctx.prog, opaque_kind=REPO_RESULT_KIND)
+        from ..symeval import State
+        st = State({k: v for k, v in args.items()})
+        try:
+            sub.frames.append(type('F', (), {'func': owner, 'module': owner.module, 'defcls': None})())
+            vals = [sub.as_num(sub.eval(a, st)) for a in itn.args]
+        except Exception:
+            vals = [None]
+        if all(v is not None and v.length is None for v in vals) and vals[2].is_const() and vals[2].const() == -1:
+            count = vals[0].r - vals[1].r
+    if count is None:
+        return ctx.unknown('C19.4', inst + ': number of attempts', f"loop over {ast.unparse(itn) if itn is not None else lp.kind}: iteration count not recognised",
+                           owner.loc(lp.node), owner.qualname, 'attempts')
+    ctx.check(count == n + C(1), 'C19.4', inst + ': the loop makes n_retries + 1 attempts (up to n_retries failures are absorbed)',
+              f"{sym.show(count)} attempts", owner.loc(lp.node), owner.qualname, 'attempts')
+    inside = [e for e in ev.events if lp in e.loops]
+
+    def in_handler(e) -> bool:
+        return any(isinstance(g, P) and g.op == 'except' and veq(g.args[1], Const(tev.seq)) for g in e.guard)
+    hs = tev.data['handlers']
+    names = sorted(n_ if isinstance(n_, str) else str(n_) for h in hs for n_ in (h if isinstance(h, list) else [h]))
+    ctx.check(names in (['TimeoutError', 'URLError'], ['TimeoutError', 'urllib.error.URLError']), 'C19.4', inst + ': the handler catches exactly URLError and TimeoutError',
+              f"catches {names or 'everything'}", owner.loc(tev.node), owner.qualname, 'types')
+    leave = [e for e in inside if e.kind in ('break', 'return') and not in_handler(e) and e.seq > dl.seq]
+    ctx.check(bool(leave), 'C19.4', inst + ': success leaves the loop', '', owner.loc(tev.node), owner.qualname, 'break')
+    rer = [e for e in inside if e.kind == 'raise' and in_handler(e) and e.data.get('reraise')]
+    ok = False
+    detail = 'no bare `raise` in the handler'
+    if len(rer) == 1 and lp.kind == 'range' and lp.sym is not None:
+        g = [x for x in rer[0].guard if not (isinstance(x, P) and x.op == 'except')][len([x for x in dl.guard]):]
+        want = P('==', Num(lp.sym), Num(lp.hi - C(1)))
+        verdict, detail = equivalent(g[0] if len(g) == 1 else (P('and', *g) if g else Const(True)), want)
+        ok = bool(verdict)
+    ctx.check(ok, 'C19.4', inst + ': the handler re-raises the caught exception exactly on the last attempt', detail, owner.loc(tev.node), owner.qualname, 'reraise')
+    swallow = [e for e in inside if e.kind in ('break', 'return') and in_handler(e)]
+    ctx.check(not swallow, 'C19.4', inst + ': the handler neither returns nor breaks (no swallowed failure)', f"{[(e.kind, e.loc()) for e in swallow]}",
+              owner.loc(tev.node), owner.qualname, 'no-swallow')
 
 
 def check_hit_path(ctx):
@@ -334,7 +393,7 @@ def check_hit_path(ctx):
                     okl = len(loads) == 1
                     if okl:
                         f = targ(loads[0].data['result'], 'file', 0)
-                        op = [e for e in libs if e.data['name'] == 'builtins.open' and veq(e.data['result'], f)]
+                        op = [e for e in libs if e.data['name'] == 'builtins.open' and f is not None and any(veq(t, e.data['result']) for t in walk_vals(f))]
                         okl = len(op) == 1 and veq(op[0].data['pos'][0] if op[0].data['pos'] else None, final) and (open_mode(op[0]) or 'r').startswith('r')
                         okl = okl and veq(res, loads[0].data['result'])
                     ctx.check(okl, 'C19.5', f"{tag}: served by pickle.load of the cache slot", show(res, 160), fi.loc(), fi.qualname, f"hit:{dim}:{deia}:{avail}")
